@@ -1,6 +1,7 @@
 package main
 
 import (
+	"os"
 	"fmt"
 	"go/constant"
 	"go/types"
@@ -491,7 +492,15 @@ func (se *specEnv) quant(e *Spec) sval {
 	// facts about terms mentioning the bound variable become their own axioms
 	for _, f := range facts {
 		if strings.Contains(f, v) {
-			c.assumeRaw(fmt.Sprintf("(assert (forall ((%s Int)) %s))", sym(v), f))
+			w := fmt.Sprintf("(forall ((%s Int)) %s)", sym(v), f)
+			if savedFacts != nil {
+				// nested quantifier: the fact may also mention an enclosing bound variable; the enclosing quantifier closes it
+				*savedFacts = append(*savedFacts, w)
+			} else {
+				c.assumeRaw(fmt.Sprintf("(assert %s)", w))
+			}
+		} else if savedFacts != nil {
+			*savedFacts = append(*savedFacts, f)
 		} else {
 			c.fact(f)
 		}
@@ -701,6 +710,7 @@ func (se *specEnv) call(e *Spec) sval {
 				// outer bound variables stay visible only through arguments
 			}
 		}
+		var argv []sval
 		for i, p := range pd.Params {
 			a := se.ev(e.Args[i])
 			if pt := se.resolveType(p.Type); pt != nil {
@@ -709,9 +719,50 @@ func (se *specEnv) call(e *Spec) sval {
 			}
 			n.vars[p.Name] = a
 			n.bound[p.Name] = true
+			argv = append(argv, a)
 		}
 		n.preferLocals = false
+		isBool := strings.TrimSpace(pd.Ret) == "bool"
+		savedRec, savedBad := c.getRec, c.getRecBad
+		if isBool {
+			c.getRec, c.getRecBad = map[string]Term{}, false
+		}
 		r := n.ev(pd.Body)
+		if isBool {
+			fp, bad := c.getRec, c.getRecBad
+			c.getRec, c.getRecBad = savedRec, savedBad
+			if savedRec != nil {
+				for k, v := range fp {
+					if prev, ok := savedRec[k]; ok && prev != v {
+						c.getRecBad = true
+					}
+					savedRec[k] = v
+				}
+				if bad {
+					c.getRecBad = true
+				}
+			}
+			c.lastAtom = ""
+			if !bad {
+				if _, ok := fp["W"]; ok && !specMentions(pd.Body, "fresh") {
+					// the allocation watermark is read only for side facts about loaded pointers
+					fp2 := map[string]Term{}
+					for k, v := range fp {
+						if k != "W" {
+							fp2[k] = v
+						}
+					}
+					fp = fp2
+				}
+				atom := c.atomTerm(e.Name, argv, fp)
+				c.lastAtom = atom
+				if se.assuming && os.Getenv("GOVC_NOATOM") == "" {
+					// the folded form accompanies every assumed instance (sound in any position: interpret the
+					// function as the predicate's truth value, which depends on arguments and footprint only)
+					r.t = and(r.t, atom)
+				}
+			}
+		}
 		if rt := strings.TrimSpace(pd.Ret); rt != "int" && rt != "bool" {
 			if t := se.resolveType(rt); t != nil {
 				r.typ = t
@@ -765,8 +816,129 @@ func (fr *Frame) proveSpec(kind, desc string, cl *Clause, e *Spec, st, old *Stat
 	fr.proveSpecEnv(kind, desc, cl, e, se)
 }
 
+// specMentions: the expression (transitively through predicate definitions) calls the builtin fn
+func specMentions(e *Spec, fn string) bool {
+	if e == nil {
+		return false
+	}
+	if e.Op == "call" && e.Name == fn {
+		return true
+	}
+	if e.Op == "call" && pureDefs != nil {
+		if pd, ok := pureDefs[e.Name]; ok && specMentions(pd.Body, fn) {
+			return true
+		}
+	}
+	for _, a := range e.Args {
+		if specMentions(a, fn) {
+			return true
+		}
+	}
+	return specMentions(e.Trig, fn)
+}
+
+// specUsesOld: the expression (transitively through predicate definitions) mentions old()/entry()
+func specUsesOld(e *Spec) bool {
+	if e == nil {
+		return false
+	}
+	if e.Op == "call" && (e.Name == "old" || e.Name == "entry" || e.Name == "unchanged") {
+		return true
+	}
+	if e.Op == "call" && pureDefs != nil {
+		if pd, ok := pureDefs[e.Name]; ok && specUsesOld(pd.Body) {
+			return true
+		}
+	}
+	for _, a := range e.Args {
+		if specUsesOld(a) {
+			return true
+		}
+	}
+	return specUsesOld(e.Trig)
+}
+
+// foldedObligation: one attempt per predicate instance (e.From) to prove it folded, see Ctx.getRec.
+func (fr *Frame) foldedObligation(kind string, cl *Clause, from *Spec, se *specEnv) *Obligation {
+	if fr.foldObls == nil {
+		fr.foldObls = map[*Spec]*Obligation{}
+	}
+	if o, ok := fr.foldObls[from]; ok {
+		return o
+	}
+	fr.foldObls[from] = nil
+	c := fr.c()
+	var hyps []Term
+	cur := from
+	n := *se
+	n.vars = map[string]sval{}
+	for k, v := range se.vars {
+		n.vars[k] = v
+	}
+	n.bound = map[string]bool{}
+	for k, v := range se.bound {
+		n.bound[k] = v
+	}
+	n.assuming = false
+	saved := fr.cur
+	fr.cur = se.st
+	defer func() { fr.cur = saved }()
+	for {
+		if cur.Op == "bin" && cur.Name == "==>" {
+			n.goalHyp = true
+			hyps = append(hyps, n.ev(cur.Args[0]).t)
+			n.goalHyp = false
+			cur = cur.Args[1]
+			continue
+		}
+		if cur.Op == "forall" {
+			sk := c.fresh("sk."+cur.Name, "Int")
+			n.vars[cur.Name] = mathInt(sk)
+			n.bound[cur.Name] = true
+			lo := n.ev(cur.Args[0]).t
+			hi := n.ev(cur.Args[1]).t
+			hyps = append(hyps, and(le(lo, sk), lt(sk, hi)))
+			cur = cur.Args[2]
+			continue
+		}
+		break
+	}
+	if cur.Op != "call" {
+		return nil
+	}
+	c.lastAtom = ""
+	{
+		// only the folded form is wanted here: side facts of the expansion (byte ranges under quantifiers ...)
+		// stay out of the context; the conjunct obligations generate their own, skolemised ones
+		var dropped []Term
+		savedQ := c.qfacts
+		c.qfacts = &dropped
+		n.ev(cur)
+		c.qfacts = savedQ
+	}
+	atom := c.lastAtom
+	if atom == "" {
+		return nil
+	}
+	var props []string
+	pos := ""
+	if cl != nil {
+		props = cl.Props
+		pos = fmt.Sprintf("contract:%d", cl.Line)
+	}
+	after := kind != "post" && kind != "frame" && kind != "inv-pres" && kind != "assert" && kind != "hint"
+	o := c.obligeX("fold", "folded "+kind+": "+from.String(), pos, props, se.st.reach, imp(and(hyps...), atom), nil, after)
+	o.Atom = true
+	fr.foldObls[from] = o
+	return o
+}
+
 func (fr *Frame) proveSpecEnv(kind, desc string, cl *Clause, e *Spec, se *specEnv) {
 	c := fr.c()
+	var folded *Obligation
+	if e.From != nil && kind != "hint" && os.Getenv("GOVC_NOATOM") == "" {
+		folded = fr.foldedObligation(kind, cl, e.From, se)
+	}
 	var hyps []Term
 	cur := e
 	n := *se
@@ -816,5 +988,6 @@ func (fr *Frame) proveSpecEnv(kind, desc string, cl *Clause, e *Spec, se *specEn
 		c.assume(imp(reach, full))
 		return
 	}
-	c.oblige(kind, desc, pos, props, reach, imp(and(hyps...), goal))
+	o := c.oblige(kind, desc, pos, props, reach, imp(and(hyps...), goal))
+	o.subsumedBy = folded
 }
